@@ -77,9 +77,9 @@ impl<const N: u32> PxE1<{ N }> {
                     u_z = if ui_c == u_z {
                         0
                     } else if u_z > 0 {
-                        0x_4000_0000
-                    } else {
                         0x_C000_0000
+                    } else {
+                        0x_4000_0000
                     };
                 }
             } else {
